@@ -20,7 +20,7 @@ def cli_run(sig, cfgs='default'):
     d = vlib.scratch('cli')
     try:
         vlib.vp('emit', '-sig', sig, '-dir', d, '-cfgs', cfgs)
-        r = subprocess.run([f'{V}/bin/argot', 'taint', '-config', 'config.yaml', './main'], cwd=d, capture_output=True,
+        r = subprocess.run([f'{vlib.BIN}/argot', 'taint', '-config', 'config.yaml', './main'], cwd=d, capture_output=True,
                            text=True, env=vlib.GOENV, timeout=600)
         out = r.stdout + r.stderr
         return dict(sig=sig, rc=r.returncode, detected='Taint flows detected' in out, crashed='panic:' in out or 'goroutine ' in out)
@@ -67,7 +67,7 @@ def run(prop, family, t, tier, rule_extra=''):
             if missing:
                 rep.fail(f"{r['sig']} @ {labels[ci]}", r['atoms'],
                          dict(sig=r['sig'], cfg=labels[ci], truth=sorted(tr), reported=sorted(got), missing=missing,
-                              panic=res['Panic'], err=res['Err'][:300], replay=f"{V}/bin/vp taint-one -sig '{r['sig']}'"),
+                              panic=res['Panic'], err=res['Err'][:300], replay=f"{vlib.BIN}/vp taint-one -sig '{r['sig']}'"),
                          cfg=labels[ci])
         if len(samples) < 6 and r['idx'] % max(1, nprog // 6) == 0:
             samples.append(dict(sig=r['sig'], truth=sorted(tr), reported_default=r['results'][0]['Flows']))
